@@ -14,6 +14,7 @@ CONSTANTS
   Faults = FALSE
   Full = FALSE
   DetOnly = TRUE
+  Wrong = "none"
 INIT Init
 NEXT Next
 VIEW View
